@@ -141,6 +141,7 @@ func ReadFile(r io.Reader) (File, []string, error) {
 		}
 		nextCommentLines = []string{}
 		nextRecordOpCode = 0
+		nextRecordBitFlags = false
 	}
 	// Next returns false at the end of the input, but also when the tokenizer
 	// gave up: only the former is success.
